@@ -55,6 +55,14 @@ func ValidString(r *rand.Rand, c *ValidCfg) string {
 	case k < 5 && len(c.Extra) > 0:
 		return `"` + c.Extra[r.IntN(len(c.Extra))] + `"`
 	case k < 6:
+		if r.IntN(8) == 0 {
+			// long escape-free literal (decoded without an intermediate copy)
+			b := make([]byte, 257+r.IntN([...]int{10, 100, 1000, 5000}[r.IntN(4)]))
+			for i := range b {
+				b[i] = "abcdefghijklmnopqrstuvwxyz 0123456789_-/:.,"[r.IntN(43)]
+			}
+			return `"` + string(b) + `"`
+		}
 		// short identifier-like
 		return `"` + fmt.Sprintf("%c%c%d", 'a'+r.IntN(26), 'a'+r.IntN(26), r.IntN(50)) + `"`
 	}
